@@ -6,7 +6,7 @@ import ast
 from ..interp import Interp
 from ..lib import is_call, loc
 from ..repo import walk_scope
-from ..terms import App, Atom, BoundMethod, Closure, EnumVal, Obj, Partial, Sym, mentions, subterms, vkey
+from ..terms import App, Atom, BoundMethod, Closure, EnumVal, Obj, Partial, Sub, Sym, mentions, subterms, vkey
 from .common import callers_of, scan
 
 DS = "cascade.shm.dataset"
@@ -964,3 +964,100 @@ def r_client_protocol(ctx):
                           row={"first": first})
         else:
             ctx.ok(rid, loc(sfi), f"_send_command | first answer {first!r} -> {want}")
+
+
+def r_disk_copy(ctx):
+    """C09.R13: what page-in copies back is what page-out wrote: _page_out writes the segment's whole buffer to the spill file;
+    _page_in recreates the segment with the recorded size and stores every chunk it reads at consecutive offsets from 0 (decided on a
+    model file read in chunks of 4 + 2 bytes: the slice stores into the segment must reassemble exactly the file's bytes)."""
+    from ..terms import ModelFn
+    repo = ctx.repo
+    DK = "cascade.shm.disk.Disk"
+    rid = "C09.R13"
+    # page in
+    fi = repo.func(f"{DK}._page_in")
+    ctx.analysed(fi.qual)
+    chunks = [b"abcd", b"ef", b""]
+
+    def seg(run, a, k, n, f):
+        run._segargs = (list(a), dict(k))
+        return Obj("multiprocessing.shared_memory.SharedMemory", {"buf": [0] * 6, "_name": "n"}, name="SEG")
+
+    def read(run, a, k, n, f):
+        i = getattr(run, "_r", 0)
+        run._r = i + 1
+        return chunks[i] if i < len(chunks) else b""
+    outcome = []
+    ip = Interp(repo, call_models={"multiprocessing.shared_memory.SharedMemory": seg, ("method", "read"): read}, max_while=8)
+    paths = ip.explore(fi, env={"self.root": Obj("T", {"name": "/spill"}, name="root")},
+                       args={"shmid": "s1", "size": 6, "callback": ModelFn("cb", lambda run, a, k, n, f: outcome.append(a[0] if a else None))})
+    ctx.evals(len(paths))
+    for p in paths:
+        buf = bytearray(6)
+        bad = None
+        for e in p.effects:
+            if e.kind == "store" and e.data.get("subscript") and getattr(e.data.get("base"), "__class__", None) is list and isinstance(e.data.get("index"), slice):
+                sl, v = e.data["index"], e.data.get("value")
+                if not isinstance(v, (bytes, bytearray)) or sl.start is None or sl.stop is None or sl.stop - sl.start != len(v) or sl.stop > 6:
+                    bad = f"stores {vkey(v)} at [{sl.start}:{sl.stop}]"
+                    break
+                buf[sl.start:sl.stop] = v
+        created = [e for e in p.effects if e.kind == "call" and (e.data.get("name") or "").endswith("SharedMemory")]
+        kw = {}
+        if created:
+            kw = dict(created[0].data["kwargs"])
+            for nm, v in zip(("name", "create", "size"), created[0].data["args"]):
+                kw[nm] = v
+        cbs = [e.data["args"][0] for e in p.effects if e.kind == "call" and e.data.get("name") == "callback" and e.data["args"]]
+        if bad or bytes(buf) != b"abcdef":
+            ctx.violation(rid, fi.qual, loc(fi), "page-in reassembles the file", f"spill file read as chunks b'abcd', b'ef': the re-created segment holds {bytes(buf)!r}"
+                          f"{' (' + bad + ')' if bad else ''}; expected b'abcdef' — every chunk must land at the offset where the previous one ended")
+        elif kw.get("name") != "s1" or kw.get("create") is not True or kw.get("size") != 6:
+            ctx.violation(rid, fi.qual, loc(fi), "page-in recreates the segment", f"the segment is re-created as SharedMemory({vkey(kw)}); expected name 's1', create=True, the recorded size 6")
+        elif cbs != [True]:
+            ctx.violation(rid, fi.qual, loc(fi), "page-in reports success once", f"completion reported as {cbs}")
+        else:
+            ctx.ok(rid, loc(fi), "page-in: segment re-created with the recorded size, chunks stored contiguously from 0, success reported")
+    # page out
+    fo = repo.func(f"{DK}._page_out")
+    ctx.analysed(fo.qual)
+
+    def seg2(run, a, k, n, f):
+        return Obj("multiprocessing.shared_memory.SharedMemory", {"buf": [1, 2, 3, 4, 5, 6], "_name": "n"}, name="SEG")
+    ip = Interp(repo, call_models={"multiprocessing.shared_memory.SharedMemory": seg2})
+    paths = ip.explore(fo, env={"self.root": Obj("T", {"name": "/spill"}, name="root")}, args={"shmid": "s1", "callback": ModelFn("cb", lambda run, a, k, n, f: None)})
+    ctx.evals(len(paths))
+    for p in paths:
+        wr = [e for e in p.effects if e.kind == "call" and e.data.get("method") == "write"]
+        op = [e for e in p.effects if e.kind == "call" and e.data.get("name") == "builtins.open"]
+        opi = [e for e in paths[0].effects if False]
+        if len(wr) != 1 or list(wr[0].data["args"][0]) != [1, 2, 3, 4, 5, 6] if wr and isinstance(wr[0].data["args"][0], (list, tuple, bytes)) else True:
+            ctx.violation(rid, fo.qual, loc(fo), "page-out writes the whole buffer",
+                          f"segment bytes 1..6: the spill file receives {[vkey(e.data['args'][0])[:40] for e in wr]}; expected one write of all six bytes")
+        elif not op or not str(op[0].data["args"][0]).endswith("/s1") or (len(op[0].data["args"]) > 1 and "w" not in str(op[0].data["args"][1])):
+            ctx.violation(rid, fo.qual, loc(fo), "spill file named after the segment", f"spill file opened as {[vkey(a) for a in op[0].data['args']] if op else None}")
+        else:
+            ctx.ok(rid, loc(fo), "page-out: whole buffer written to <spill dir>/<segment name>")
+    # the same on a segment of unknown length: the written term is the whole buffer, not a bounded slice of it
+    def seg3(run, a, k, n, f):
+        return Obj("multiprocessing.shared_memory.SharedMemory", {"buf": Sym("BUF"), "_name": "n"}, name="SEG")
+    for p in Interp(repo, call_models={"multiprocessing.shared_memory.SharedMemory": seg3}).explore(
+            fo, env={"self.root": Obj("T", {"name": "/spill"}, name="root")}, args={"shmid": "s1", "callback": ModelFn("cb", lambda *a: None)}):
+        for e in p.effects:
+            if e.kind == "call" and e.data.get("method") == "write" and e.data["args"]:
+                t = e.data["args"][0]
+                bounded = [x for x in subterms(t) if isinstance(x, Sub) and isinstance(x.index, slice) and not (x.index.start in (None, 0) and x.index.stop is None
+                                                                                                           and x.index.step in (None, 1))]
+                if bounded or not mentions(t, "BUF"):
+                    ctx.violation(rid, fo.qual, loc(fo, e.node), "page-out writes the whole buffer", f"the spill file receives {vkey(t)[:80]}: a bounded part of the segment "
+                                  f"(or something else than its buffer) — a dataset longer than the bound loses its tail when paged back in")
+                else:
+                    ctx.ok(rid, loc(fo, e.node), "page-out: the written term is the segment's whole buffer")
+    # both sides name the spill file the same way
+    pin = [e for p in Interp(repo, call_models={"multiprocessing.shared_memory.SharedMemory": seg, ("method", "read"): lambda run, a, k, n, f: b""}).explore(
+        fi, env={"self.root": Obj("T", {"name": "/spill"}, name="root")}, args={"shmid": "s1", "size": 6, "callback": ModelFn("cb", lambda *a: None)})
+        for e in p.effects if e.kind == "call" and e.data.get("name") == "builtins.open"]
+    if pin and vkey(pin[0].data["args"][0]) != "'/spill/s1'":
+        ctx.violation(rid, fi.qual, loc(fi), "page-in reads the file page-out wrote", f"page-in opens {vkey(pin[0].data['args'][0])}, page-out writes '/spill/s1'")
+    elif pin:
+        ctx.ok(rid, loc(fi), "page-in opens the file page-out wrote")
